@@ -486,7 +486,7 @@ func execPhase(base *world.World, tag string, phase int, steps []seqStep, storeK
 			}
 			snap := takeSnapshot(w, st.p)
 			st.db.Close()
-			if s.Cls != "restart" && s.Cls != "retire" { // ("restart", "retire": the same file as it is; otherwise the file as the release would have written it)
+			if s.Cls != "restart" && s.Cls != "retire" && s.Cls != "rekey" { // ("restart", "retire": the same file as it is; otherwise the file as the release would have written it)
 				os.Remove(st.path)
 				os.Remove(st.path + "-journal")
 				raw, err := sql.Open("sqlite3", st.path)
@@ -515,6 +515,10 @@ func execPhase(base *world.World, tag string, phase int, steps []seqStep, storeK
 				// the operator has dropped s.Log from the configuration (a retired log): the restarted witness no longer takes updates for it,
 				// but what it holds for it is still what it holds
 				wit, err = newWitnessWithout(w, st.p, s.Log)
+			} else if s.Cls == "rekey" {
+				// the operator has replaced s.Log's public key in the configuration (same origin): what the witness holds for the log was signed
+				// with the old key. Whatever it does with requests under the new key, it does not start a second history for the log.
+				wit, err = newWitnessRekeyed(w, st.p, s.Log)
 			} else {
 				wit, err = newWitness(w, st.p)
 			}
